@@ -4,7 +4,7 @@ worktree of /repo HEAD (3-way fallback for patches written against an earlier ba
 through tools/trymut.sh and records CAUGHT / MISSED in /verif/seeded/recheck_results.json (RECHECK_OUT overrides; VERIF_SEED
 selects the seed of the quick tier). usage: recheck.py [id-prefix ...]"""
 import json, os, subprocess, sys, time, glob
-WT = "/tmp/wt_recheck"
+WT = os.environ.get("RECHECK_WT", "/tmp/wt_recheck")
 def sh(cmd, cwd=None, timeout=3600):
     p = subprocess.run(cmd, shell=True, cwd=cwd, capture_output=True, text=True, timeout=timeout)
     return p.returncode, p.stdout + p.stderr
